@@ -36,6 +36,12 @@ def protocol_models(ck):
     if res.error or res.violated != "CounterEqualsCalls":
         raise FrameworkError("vacuity gate: the two-step counter model does not lose an update")
     ck.set("plain_counter_model_loses_update", True)
+    # pRRT worker protocol at the code's atomicity (unlocked reads included): safety + termination
+    res = run_tlc("conc/PRRT", cfg="PRRT.cfg", workers=min(4, vlib.NCPU), timeout=1800)
+    ck.tlc(res, "prrt-protocol")
+    if res.violated:
+        ck.violation("model:prrt:" + res.violated, "pRRT worker protocol (as transcribed) violates %s" % res.violated,
+                     ck.replay_file("prrt-model.txt", res.out[-3000:]))
 
 
 def scenarios(tier):
